@@ -359,4 +359,6 @@ def c20(tier, seed):
     return lex_family('C20', tier, seed, relevant={'C20'}, select=sel_for(tier, 'backtrack'), name='lex', **tp)
 
 
-REGISTRY = {'C01': c01, 'C02': c02, 'C03': c03, 'C04': c04, 'C05': c05, 'C20': c20}
+from .runtime_checks import c15  # noqa: E402
+
+REGISTRY = {'C15': c15, 'C01': c01, 'C02': c02, 'C03': c03, 'C04': c04, 'C05': c05, 'C20': c20}
